@@ -195,6 +195,60 @@ static void wakeup_event_resource(void *vp, void *arg)
 }
 
 /*
+ * signal_observer - Forward a signal to an observing guard, typically the guard
+ * of a condition variable. The observer is told that something has changed, so
+ * the demand of every process waiting there is re-evaluated (not only the first
+ * one, the waiters of a condition have different predicates), and all that are
+ * satisfied are resumed in waiting list order. The signal is then passed on to
+ * the observer's own observers.
+ */
+static void signal_observer(struct cmb_resourceguard *obs)
+{
+    struct cmi_hashheap *hp = (struct cmi_hashheap *)obs;
+    if ((hp->heap != NULL) && (hp->heap_count > 0u)) {
+        const struct cmi_resourcebase *rbp = obs->guarded_resource;
+        struct cmi_heap_tag *tmp = cmi_malloc(hp->heap_count * sizeof(*tmp));
+        uint64_t cnt = 0u;
+
+        /* First pass, note the satisfied waiters, sorted in waiting list order */
+        for (uint64_t ui = 1u; ui <= hp->heap_count; ui++) {
+            const struct cmi_heap_tag *htp = &(hp->heap[ui]);
+            struct cmb_process *pp = htp->item[0];
+            cmb_resourceguard_demand_func *demand = htp->item[1];
+            const void *ctx = htp->item[2];
+            if ((*demand)(rbp, pp, ctx)) {
+                uint64_t uj = cnt++;
+                while ((uj > 0u) && (*hp->heap_compare)(htp, &(tmp[uj - 1u]))) {
+                    tmp[uj] = tmp[uj - 1u];
+                    uj--;
+                }
+                tmp[uj] = *htp;
+            }
+        }
+
+        /* Second pass, schedule their wakeups and take them off the list */
+        for (uint64_t ui = 0u; ui < cnt; ui++) {
+            struct cmb_process *pp = tmp[ui].item[0];
+            (void)cmb_event_schedule(wakeup_event_resource, pp,
+                                     (void *)CMB_PROCESS_SUCCESS,
+                                     cmb_time(), cmb_process_priority(pp));
+            (void)cmi_hashheap_remove(hp, tmp[ui].key);
+        }
+
+        cmi_free(tmp);
+    }
+
+    const struct cmi_slist_head *ohead = &(obs->observers);
+    while (ohead->next != NULL) {
+        const struct observer_tag *ot = cmi_container_of(ohead->next,
+                                                         struct observer_tag,
+                                                         listhead);
+        signal_observer(ot->observer);
+        ohead = ohead->next;
+    }
+}
+
+/*
  * cmb_resourceguard_signal - Rings the bell for a resource guard to check if
  * any of the waiting processes should be resumed. Will evaluate the demand
  * function for the first process in the queue, if any, and will resume it if
@@ -249,7 +303,7 @@ bool cmb_resourceguard_signal(struct cmb_resourceguard *rgp)
                                                          struct observer_tag,
                                                          listhead);
         struct cmb_resourceguard *obs = ot->observer;
-        cmb_resourceguard_signal(obs);
+        signal_observer(obs);
         ohead = ohead->next;
     }
 
